@@ -48,7 +48,7 @@ def _elt(inp, name, hi=ELT_HI):
 # ---------------------------------------------------------------------------------------
 LIST_OPS = ('append', 'insert', 'remove', 'pop', 'pop_default', 'set', 'setitem', 'extend', 'sort', 'sort_rev', 'index', 'count', 'get', 'reset', 'sort_rev_mixed')
 DICT_OPS = ('set', 'setitem', 'setdefault', 'setdefault_nodefault', 'pop', 'pop_default', 'update', 'clear', 'get', 'get_default', 'getitem', 'contains', 'len', 'reset')
-SET_OPS = ('add', 'remove', 'discard', 'update', 'clear', 'contains', 'len', 'reset', 'pop_single')
+SET_OPS = ('add', 'remove', 'discard', 'update', 'clear', 'contains', 'len', 'reset', 'pop_single', 'pop_any')
 CNT_OPS = ('set', 'add', 'sub', 'inc', 'get')
 Q_OPS = ('put', 'get', 'get_default', 'full', 'empty', 'qsize')
 
@@ -112,8 +112,11 @@ def _dict_op(inp, i, op, b, ref):
     }[op]
 
 
+_POPPED = [None]
+
+
 def _set_op(inp, i, op, b, ref):
-    k = inp.choice('k%d' % i, 3) if op not in ('clear', 'len', 'pop_single') else 0
+    k = inp.choice('k%d' % i, 3) if op not in ('clear', 'len', 'pop_single', 'pop_any') else 0
     k2 = inp.choice('kk%d' % i, 3) if op in ('update', 'reset') else 0
     D = dict(_doApply=True)
     return {
@@ -127,6 +130,8 @@ def _set_op(inp, i, op, b, ref):
         'reset': (lambda: b.reset({k, k2}, **D), lambda: (ref.clear(), ref.update({k, k2}))[0]),
         # pop of an arbitrary element is only comparable when at most one element is present
         'pop_single': (lambda: b.pop(**D) if len(b) <= 1 else None, lambda: ref.pop() if len(ref) <= 1 else None),
+        # any member is a correct answer of set.pop(): the reference removes whichever element the battery returned
+        'pop_any': (lambda: _POPPED.__setitem__(0, b.pop(**D)) or _POPPED[0], lambda: (ref.remove(_POPPED[0]), _POPPED[0])[1] if ref else ref.pop()),
     }[op]
 
 
@@ -583,6 +588,54 @@ def B3(inp, k, mid):
     return Res(cl, nontrivial=True, obs=lambda: dict(puts=show(xs), mid=mid, out=show(allout)))
 
 
+_B4_POOL = (0, 1, 8, 9, 16, 64, 'a', 'zz', (1, 2))
+
+
+@obligation('B4', props=('C15', 'C01', 'C09'), quick=[dict(k=2), dict(k=3)], stubs=('none',),
+            bounds='sets of k<=3 elements from a pool of small ints (colliding in an 8-slot table), strings and a tuple; one replica built through a long history (200 adds, discards), '
+                   'one restored from a snapshot (the consumer\'s own _serialize/_deserialize through the real pickle), one built directly')
+def B4(inp, k):
+    """ReplSet.pop on replicas with equal contents but different histories: the element removed is the same everywhere (the
+    choice must depend on the contents, not on the layout of the hash table, which is not part of the replicated state), it was a
+    member, and the replicas stay equal - also for the next pop."""
+    import pysyncobj.pickle as real_pickle
+    idx = []
+    for i in range(k):
+        j = inp.choice('e%d' % i, len(_B4_POOL))
+        idx.append(j)
+    elems = set(_B4_POOL[j] for j in idx)
+    hist = bt.ReplSet()
+    for x in list(range(200)) + ['a', 'zz', 'q', (1, 2), (3, 4)]:
+        hist.add(x, _doApply=True)
+    for x in list(range(200)) + ['a', 'zz', 'q', (1, 2), (3, 4)]:
+        if x not in elems:
+            hist.discard(x, _doApply=True)
+    direct = bt.ReplSet()
+    for x in sorted(elems, key=repr, reverse=True):
+        direct.add(x, _doApply=True)
+    snap = bt.ReplSet()
+    snap._deserialize(real_pickle.loads(real_pickle.dumps(hist._serialize())))
+    reps = (hist, direct, snap)
+    cl = {'replicas_equal_before': all(set(r.rawData()) == elems for r in reps)}
+    for rnd in range(2):
+        if not elems:
+            break
+        outs = []
+        for r in reps:
+            v, e = None, None
+            try:
+                v = r.pop(_doApply=True)
+            except Exception as ex:
+                e = ex
+            outs.append((v, type(e).__name__ if e else None))
+        cl['pop%d_no_exception' % rnd] = all(o[1] is None for o in outs)
+        cl['pop%d_same_element_on_every_replica' % rnd] = all(o == outs[0] and type(o[0]) is type(outs[0][0]) for o in outs)
+        cl['pop%d_was_a_member' % rnd] = outs[0][0] in elems
+        elems.discard(outs[0][0])
+        cl['pop%d_replicas_equal_after' % rnd] = all(set(r.rawData()) == elems for r in reps)
+    return Res(cl, nontrivial=True, obs=lambda: dict(idx=idx, left=sorted(map(repr, elems))))
+
+
 @obligation('K4', props=('C16',), quick=[dict()], stubs=('lock table behind the manager: real _ReplLockManagerImpl whose replicated release/acquire are recorded instead of submitted',),
             bounds='local table shows the lock as held by the caller, by someone else, or not at all (the caller\'s own acquire may still be in flight)')
 def K4(inp):
@@ -606,3 +659,76 @@ def K4(inp):
     cl['replicated_release_issued_once'] = calls == [('L', 'me', False)]
     cl['no_local_shortcut_answer'] = got == []
     return Res(cl, nontrivial=view != 1, obs=lambda: dict(view=view, calls=calls, got=show(got), exc=show(exc)))
+
+
+class _TableAdapter:
+    """the replicated lock table as the manager sees it: commands are committed (executed on the real _ReplLockManagerImpl)
+    at once, except that a release may be lost on its way (no callback, no retry: a forwarded command without callback is simply
+    gone when its connection drops)"""
+
+    def __init__(self, impl, release_lost):
+        self.impl, self.release_lost, self.released = impl, release_lost, []
+
+    def acquire(self, lockID, clientID, t, callback=None, sync=False, timeout=None):
+        res = self.impl.acquire(lockID, clientID, t, _doApply=True)
+        if sync:
+            return res
+        callback(res, 0)
+
+    def release(self, lockID, clientID, callback=None, sync=False, timeout=None):
+        self.released.append((lockID, clientID, callback is not None))
+        if not self.release_lost:
+            self.impl.release(lockID, clientID, _doApply=True)
+
+    def prolongate(self, clientID, t, **kw):
+        self.impl.prolongate(clientID, t, _doApply=True)
+
+    def isAcquired(self, lockID, clientID, t):
+        return self.impl.isAcquired(lockID, clientID, t)
+
+
+@obligation('K5', props=('C16',), quick=[dict(mode='async'), dict(mode='sync')],
+            stubs=('batteries.time=FakeTime (symbolic instants)', 'manager built with object.__new__ (no thread); its prolongation rounds are performed by the harness exactly as the thread body does', 'commands are committed at once on the real _ReplLockManagerImpl; the undo-release may be lost'),
+            bounds='auto-unlock time U, attempt and commit instants symbolic Reals with U/2 < delay <= U; 6 prolongation rounds U/4 apart afterwards; the undo-release arrives or is lost')
+def K5(inp, mode):
+    """a client whose acquisition took longer than half the auto-unlock time is told it failed and does not keep the lock: after
+    that answer - whatever happens to the release the manager sends - the client's own prolongation does not keep the entry alive
+    for ever; once the auto-unlock time has passed another client obtains the lock."""
+    U = inp.real('U', 0, lo_strict=True)
+    t0 = inp.real('t_attempt', 0)
+    t1 = inp.real('t_committed', 0)
+    inp.assume(And(t1 - t0 > U / 2, t1 - t0 <= U))
+    lost = inp.flag('release_lost')
+    impl = bt._ReplLockManagerImpl(U)
+    tab = _TableAdapter(impl, lost)
+    real_time = bt.time
+    bt.time = _FakeTime([t0, t1])
+    got = []
+    try:
+        m = object.__new__(bt.ReplLockManager)
+        m._ReplLockManager__lockImpl = tab
+        m._ReplLockManager__selfID = 'X'
+        m._ReplLockManager__autoUnlockTime = U
+        if mode == 'sync':
+            res, exc = guard(m.tryAcquire, 'L', sync=True)
+        else:
+            _, exc = guard(m.tryAcquire, 'L', callback=lambda r, e: got.append((r, e)))
+            res = got[0][0] if got else None
+        # the manager's thread: every U/4 it prolongs whatever the table holds under its client id
+        t = t1
+        for k in range(6):
+            t = t + U / 4
+            if exc is None:
+                _, exc = guard(tab.prolongate, 'X', t)
+        t_end = t
+        still = impl.isAcquired('L', 'X', t_end)
+        y_gets = impl.acquire('L', 'Y', t_end, _doApply=True)
+    finally:
+        bt.time = real_time
+    cl = {'no_exception': exc is None}
+    cl['told_it_failed'] = res is False
+    cl['undo_release_sent'] = len(tab.released) == 1
+    cl['does_not_keep_the_lock'] = Not(still)
+    cl['obtainable_by_others_after_auto_unlock_time'] = y_gets
+    return Res(cl, nontrivial=True, obs=lambda: dict(mode=mode, lost=lost, res=show(res), still=show(still), y=show(y_gets), released=tab.released, exc=show(exc)),
+               vars=dict(release_lost=1 if lost else 0))
